@@ -31,11 +31,13 @@ MCNext ==
          \/ ReadBatch(s)   /\ h' = Append(h, T("ReadBatch", s))
          \/ ReadClose(s)   /\ h' = Append(h, T("ReadClose", s))
          \/ InsPin(s)      /\ h' = Append(h, T("InsPin", s))
+         \/ InsCommitA(s)  /\ h' = Append(h, T("InsCommitA", s))
          \/ InsCommit(s)   /\ h' = Append(h, T("InsCommit", s))
          \/ InsFinish(s)   /\ h' = Append(h, T("InsFinish", s))
          \/ DelPin(s)      /\ h' = Append(h, T("DelPin", s))
          \/ DelLock(s)     /\ h' = Append(h, T("DelLock", s))
          \/ DelPrep(s)     /\ h' = Append(h, T("DelPrep", s))
+         \/ DelCommitA(s)  /\ h' = Append(h, T("DelCommitA", s))
          \/ DelCommit(s)   /\ h' = Append(h, T("DelCommit", s))
          \/ DelFinish(s)   /\ h' = Append(h, T("DelFinish", s))
          \/ CreateApply(s) /\ h' = Append(h, T("CreateApply", s))
@@ -44,6 +46,7 @@ MCNext ==
     \/ CompWake    /\ h' = Append(h, [a |-> "CompWake", s |-> "compactor",
                                       order |-> [i \in 1..Len(comp'.todo) |-> NameOfTid(comp'.todo[i])]])
     \/ CompVisit   /\ h' = Append(h, T("CompVisit", "compactor"))
+    \/ CompCommitA /\ h' = Append(h, T("CompCommitA", "compactor"))
     \/ CompCommit  /\ h' = Append(h, T("CompCommit", "compactor"))
     \/ CompRelease /\ h' = Append(h, T("CompRelease", "compactor"))
     \/ CompSleep   /\ h' = Append(h, T("CompSleep", "compactor"))
